@@ -19,7 +19,7 @@ class spec:
    "validate": null | "alpha"}    # string-likes: constructor raises ValueError
 
 type expression (texpr):
-  "int" | "str" | "float" | "bool" | "date" | "path" | "any"
+  "int" | "str" | "float" | "bool" | "date" | "path" | "any" | "untyped" (no annotation)
   ["opt", T] | ["list", T] | ["dict", T] | ["union", T1, T2, ...] | ["cls", name]
   ["dictk", name, T]    # Dict[<string-like class>, T]
 
@@ -63,7 +63,7 @@ import yatiml
 def ann_src(t):
     if isinstance(t, str):
         return {'int': 'int', 'str': 'str', 'float': 'float', 'bool': 'bool',
-                'date': 'date', 'path': 'Path', 'any': 'Any'}[t]
+                'date': 'date', 'path': 'Path', 'any': 'Any', 'untyped': 'Any'}[t]
     k = t[0]
     if k == 'opt':
         return 'Optional[{}]'.format(ann_src(t[1]))
@@ -178,7 +178,8 @@ def class_source(spec, c):
     opt = [p for p in ps if p.get('d') is not None]
     sig = ['self']
     for p in req:
-        sig.append('{}: {}'.format(p['n'], ann_src(p['t'])))
+        # ('untyped': a parameter without annotation - yatiml treats it like Any)
+        sig.append(p['n'] if p['t'] == 'untyped' else '{}: {}'.format(p['n'], ann_src(p['t'])))
     if c.get('extra'):
         sig.append('_yatiml_extra: OrderedDict')
     for p in opt:
@@ -337,7 +338,7 @@ class Namespace:
         from typing import Any, Dict, List, Optional, Union
         if isinstance(t, str):
             return {'int': int, 'str': str, 'float': float, 'bool': bool,
-                    'date': datetime.date, 'path': pathlib.Path, 'any': Any}[t]
+                    'date': datetime.date, 'path': pathlib.Path, 'any': Any, 'untyped': Any}[t]
         k = t[0]
         if k == 'opt':
             return Optional[self.type_of(t[1])]
